@@ -60,7 +60,7 @@ def gen_name(rng, cls=None, ext=True):
     elif cls == "dot":
         n = rng.choice([".", "..", "..."]) + stem
     elif cls == "nearmiss":
-        n = rng.choice(["ascmhl2", "ascmhl.txt", "my_ascmhl", ".DS_Store2", "x.DS_Store", "Ascmhl", "ASCMHL", "ascmhl "])
+        n = rng.choice(["ascmhl2", "ascmhl.txt", "my_ascmhl", ".DS_Store2", "x.DS_Store", "Ascmhl", "ASCMHL", "ascmhl ", ".ascmhl", "_ascmhl", "__ascmhl", "._ascmhl"])
     elif cls == "long":
         n = stem * rng.randint(8, 20)
     elif cls == "dotend":
